@@ -21,6 +21,7 @@
 -/
 import CijProofs.Lemmas.V2P
 import Generated.PressureBaseSpec
+import CijProofs.Lemmas.AdapterGuardSource
 namespace Cij.C06
 
 open Cij.V2P
@@ -483,6 +484,58 @@ example : desiredPressureStatus [[(-3 : ℚ), 10, 40], [-1, 12, 38]] (desiredPre
           desiredPressureStatus [[(-3 : ℚ), 10, 40], [-1, 12, 38]] (desiredPressuresGpa 0 2 21)
             = .error .valueError := by
   decide +kernel
+
+/-- **pressure_guard_is_source.**  The range check of the model is the meaning of the `if` test that
+`QHACalculator.desired_pressure_status` contains NOW (translated on this run into `Generated.pressureGuard`: which field, which
+column, which reduction on either side, the comparison operator, the exception), for every table and every requested grid. -/
+theorem pressure_guard_is_source (pTvGpa : List (List α)) (desired : List α) :
+    Cij.AdapterGuardSource.evalGuard Generated.pressureGuard pTvGpa desired = some (desiredPressureStatus pTvGpa desired) :=
+  Cij.AdapterGuardSource.desiredPressureStatus_is_source pTvGpa desired
+
+/-- … hence the two clauses above hold of the guard as written: a grid the translated guard accepts stays at or below
+P(T, V_last) for every T … -/
+theorem source_guard_accept_in_range (pTvGpa : List (List α)) (desired : List α)
+    (h : Cij.AdapterGuardSource.evalGuard Generated.pressureGuard pTvGpa desired = some (.ok ())) :
+    ∀ row ∈ pTvGpa, ∀ x ∈ desired, x ≤ row.getLastD 0 := by
+  rw [pressure_guard_is_source] at h
+  exact status_accept_in_range pTvGpa desired (Option.some.inj h)
+
+/-- … and a non-empty grid that stays at or below P(T, V_last) for every T is NOT refused by the guard as written (no
+off-by-one margin: a requested pressure equal to the smallest last-column pressure is still accepted). -/
+theorem source_guard_accepts_in_range (pTvGpa : List (List α)) (desired : List α)
+    (hne : ∀ row ∈ pTvGpa, row ≠ []) (hp : pTvGpa ≠ []) (hd : desired ≠ [])
+    (h : ∀ row ∈ pTvGpa, ∀ x ∈ desired, x ≤ row.getLastD 0) :
+    Cij.AdapterGuardSource.evalGuard Generated.pressureGuard pTvGpa desired = some (.ok ()) := by
+  rw [pressure_guard_is_source]
+  congr 1
+  unfold desiredPressureStatus
+  have hemp : ¬ (pTvGpa.any fun r => r.isEmpty) = true := by
+    simp only [List.any_eq_true, not_exists, not_and]
+    intro r hr
+    have := hne r hr
+    cases r <;> simp_all
+  rw [if_neg hemp]
+  have hc : lastColumn pTvGpa ≠ [] := by
+    unfold lastColumn
+    intro hnil
+    rw [List.map_eq_nil_iff] at hnil
+    exact hp hnil
+  obtain ⟨lo, hlo⟩ := listMin_isSome hc
+  obtain ⟨hi, hhi⟩ := listMax_isSome hd
+  rw [hlo, hhi]
+  have hlo' := (listMin_spec hlo).1
+  have hhi' := (listMax_spec hhi).1
+  unfold lastColumn at hlo'
+  obtain ⟨row, hrow, hrl⟩ := List.mem_map.mp hlo'
+  have := h row hrow hi hhi'
+  rw [hrl] at this
+  simp [not_lt.mpr this]
+
+/-- **adapter_load_order_is_source.**  `_load_qha_calculator` hands the file to qha, refines the volume grid and applies the
+guard last (on the refined grid), then returns that calculator: the order translated from the source on this run. -/
+theorem adapter_load_order_is_source :
+    Generated.adapterLoadCalls = [("read_input", "qha_input"), ("refine_grid", ""), ("desired_pressure_status", "")] :=
+  Cij.AdapterGuardSource.load_order_is_source
 
 end RangeCheck
 
